@@ -68,3 +68,26 @@ func init() {
 		Exhaustive: func(tier string, ev map[string]int) bool { return tier == "thorough" && ev["sweep-length-covered"] >= 1701*10 },
 	}
 }
+
+func init() {
+	metaTable["C08"] = propMeta{Level: "exploration", Assumptions: commonAssumptions,
+		Rule: "sweep cases offer each channel-number value once to ChannelBind against a standing state of two bound channels (thorough: all 65536 values; quick: range boundaries +-2 and random values) and probe the new binding in both directions; " +
+			"history cases are random bind/re-bind/conflict/expiry/re-use sequences over a 16-number range on 1-4 clients; after every step the server's binding table (hook) is checked for uniqueness of numbers and peers and range, conflicts must be answered 400, repeats must succeed, and every ChannelData reaching a client must carry the number bound to its real source; " +
+			"non-trivial = distinct (sweep range class x outcome) and (chanbind situation x response code) fingerprints, plus channel-related data-plane verdict classes",
+		NonTrivial: func(fp string) bool {
+			return strings.HasPrefix(fp, "sweep/") || strings.HasPrefix(fp, "chanbind/") || strings.HasPrefix(fp, "chandata/chan-") || strings.HasPrefix(fp, "peer/chan-")
+		},
+		Exhaustive: func(tier string, ev map[string]int) bool { return tier == "thorough" && ev["sweep-number-covered"] >= 65536 },
+	}
+}
+
+func init() {
+	metaTable["C04"] = propMeta{Level: "exploration", Assumptions: append(append([]string{}, commonAssumptions...), "linearizability is checked with porcupine v1.3.0 on histories of at most ~50 operations; a checker timeout is counted as unknown, never as a verdict"),
+		Rule: "4 of 5 cases: random histories with 3-8 clients sharing IPs/users/peers/channel numbers, half of the worlds with the same client address on two listeners; every emission is attributed to the submitting 5-tuple by the conservation monitor and a snapshot-diff monitor asserts that a request changes only the requester's allocation; " +
+			"1 of 5 cases: 6-12 TCP clients (one server goroutine each) issue Allocate/Refresh(0)/Refresh concurrently while AllocationCount is polled, and the recorded history is checked for linearizability against a sequential set model; " +
+			"non-trivial = distinct cross-effect fingerprints (operation x number of other allocations present), cross-client data-plane reason classes, and burst fingerprints (clients x whether operations really overlapped)",
+		NonTrivial: func(fp string) bool {
+			return strings.HasPrefix(fp, "crossfx/") || strings.HasPrefix(fp, "burst/") || strings.Contains(fp, "otherclient") || strings.HasPrefix(fp, "allocate/on-live")
+		},
+	}
+}
